@@ -23,6 +23,12 @@ CLAIMS["C17"] = {
     "design_ref": "DESIGN.md section 4, C17",
     "note": "Trusted: Lean kernel + standard axioms; ThreadPoolExecutor/as_completed yield each future exactly once (the model's perm is that order); duplicate branch names are outside the theorem's hypothesis (names Nodup).",
 }
+CLAIMS["C14"] = {
+    "technique": "Lean 4 theorems: Gray map inverse/injective/adjacent for all naturals; kernel-evaluated, proved-sound checkers (label permutation via OR-mask, pairwise distance / one-bit-neighbour scan, energy) over every constellation table regenerated from /repo, split over 8 modules; correspondence on the Gray utilities and on modulate()",
+    "text": "Unbounded theorems: n xor (n>>1) and the prefix-xor loop are mutually inverse on all naturals and consecutive integers map to words at Hamming distance one; binary_to_gray/gray_to_binary equal these maps except at the two hard-coded values (known finding, with a kernel-checked witness that the code as it is is not injective / not adjacent there). Checker soundness (U): labelsOk => the labels are a permutation of 0..2^b-1; pairsOk => all points distinct and every pair within the minimum distance differs in exactly one label bit. K obligations re-proved whenever a table changes: for each of the ~90 catalogue instances (BPSK, QPSK, PSK 4..64, QAM 4..256, PAM 2..64, DPSK 2..16, DBPSK, DQPSK, OQPSK, pi/4-QPSK tables; Gray/binary; normalised or not) labels bijective, points distinct, minimum-distance bounds (with a certificate pair), Gray neighbours when requested, unit average energy within 1e-6 when requested; for the listed findings (Gray PAM >= 4, pi/4-QPSK) the kernel proves the table is NOT Gray. Tie: tables are read from the constructed modulators' buffers as exact dyadic rationals; modulate() is run on every b-bit pattern and must land on the table entry with that label; gray/ungray exhaustive below 2^12 (2^16 thorough), random to 2^60, array forms.",
+    "design_ref": "DESIGN.md section 4, C14",
+    "note": "Trusted: Lean kernel + standard axioms; float32 tables: 'nearest neighbours' are pairs within 1e-4 of the minimum squared distance; popcount is the definition of the number of differing label bits.",
+}
 
 NOT_YET = {}
 
